@@ -6,8 +6,11 @@ import (
 	"encoding/json"
 	"fmt"
 	"os"
+	"math/rand"
 	"reflect"
 	"sort"
+	"strconv"
+	"sync"
 
 	"github.com/gontainer/gontainer-helpers/v3/container"
 )
@@ -117,6 +120,84 @@ func literal(kind string, v interface{}) interface{} {
 	return v
 }
 
+// concurrent mode: probe <ops.json> concurrent <goroutines> <rounds> <seed>
+// every goroutine owns one context and executes the whole (shuffled) history; afterwards the invocation counters and, per goroutine,
+// the serial numbers observed per (operation, name) are printed.
+func concurrent(ops []probeOp, n, rounds int, seed int64) {
+	c := @CTOR@()
+	enc := json.NewEncoder(os.Stdout)
+	enc.SetEscapeHTML(false)
+	type obsv struct {
+		G      int    `json:"g"`
+		Op     string `json:"op"`
+		Name   string `json:"name"`
+		Serial string `json:"serial"`
+		Err    bool   `json:"err"`
+	}
+	results := make([][]obsv, n)
+	start := make(chan struct{})
+	var wg sync.WaitGroup
+	for g := 0; g < n; g++ {
+		wg.Add(1)
+		go func(g int) {
+			defer wg.Done()
+			rnd := rand.New(rand.NewSource(seed*1000 + int64(g)))
+			cx, cancel := context.WithCancel(context.Background())
+			defer cancel()
+			ctx := container.ContextWithContainer(cx, c)
+			<-start
+			for r := 0; r < rounds; r++ {
+				perm := rnd.Perm(len(ops))
+				for _, i := range perm {
+					o := ops[i]
+					var v interface{}
+					var err error
+					switch o.Op {
+					case "get":
+						v, err = c.Get(o.Name)
+					case "getctx":
+						v, err = c.GetInContext(ctx, o.Name)
+					case "tagged":
+						v, err = c.GetTaggedBy(o.Name)
+					case "taggedctx":
+						v, err = c.GetTaggedByInContext(ctx, o.Name)
+					case "param":
+						v, err = c.GetParam(o.Name)
+					case "getter":
+						m := reflect.ValueOf(c).MethodByName(o.Name)
+						if m.IsValid() {
+							res := m.Call(nil)
+							v = res[0].Interface()
+							if len(res) == 2 && !res[1].IsNil() {
+								err = res[1].Interface().(error)
+							}
+						}
+					}
+					ser := ""
+					if t, ok := v.(*T); ok && t != nil {
+						ser = fmt.Sprint(t.Serial)
+					} else if t, ok := v.(T); ok {
+						ser = fmt.Sprint(t.Serial)
+					} else if rv := reflect.ValueOf(v); v != nil && rv.Kind() == reflect.Ptr && !rv.IsNil() && rv.Elem().Kind() == reflect.Struct && rv.Elem().FieldByName("Serial").IsValid() {
+						ser = fmt.Sprint(rv.Elem().FieldByName("Serial").Interface())
+					}
+					results[g] = append(results[g], obsv{G: g, Op: o.Op, Name: o.Name, Serial: ser, Err: err != nil})
+				}
+			}
+		}(g)
+	}
+	close(start)
+	wg.Wait()
+	inv := map[string]int64{}
+	for k, p := range Invocations {
+		inv[k] = *p
+	}
+	_ = enc.Encode(map[string]interface{}{"k": "invocations", "v": inv})
+	for g := 0; g < n; g++ {
+		_ = enc.Encode(map[string]interface{}{"k": "goroutine", "g": g, "obs": results[g]})
+	}
+}
+
 func main() {
 	raw, err := os.ReadFile(os.Args[1])
 	if err != nil {
@@ -125,6 +206,13 @@ func main() {
 	var ops []probeOp
 	if err := json.Unmarshal(raw, &ops); err != nil {
 		panic(err)
+	}
+	if len(os.Args) > 2 && os.Args[2] == "concurrent" {
+		n, _ := strconv.Atoi(os.Args[3])
+		rounds, _ := strconv.Atoi(os.Args[4])
+		seed, _ := strconv.ParseInt(os.Args[5], 10, 64)
+		concurrent(ops, n, rounds, seed)
+		return
 	}
 	c := @CTOR@()
 	ctxs := map[int]context.Context{}
